@@ -189,4 +189,102 @@ def truncate (h : Handle) (d : Disk) (item : Nat) : Handle × Disk :=
       ({ number := item + 1, headId := e.fid, headBytes := e.off, cache := cache },
        { d with idx := idx, files := files2 })
 
+/-! ### the read-handle LRU, exactly (round 6)
+
+`FreezerFiles.files : LruCache<FileId, File>` with capacity `cap` (`open_files_limit`, ≥ 2).  The
+lists below are the cached ids, most recently used first (the order of `LruCache::iter`).  `put` of
+a new key evicts the least recently used entry when full; `get` and `put` of an existing key
+promote it; `pop` removes.  The `…L` operations are the operations above with `Handle.cache`
+maintained exactly (the other fields and the disk are, by definition, the ones of the plain
+operations, so every theorem about those applies to them). -/
+
+def lruPut (cap : Nat) (c : List Nat) (id : Nat) : List Nat := (id :: c.filter (· ≠ id)).take cap
+def lruGet (c : List Nat) (id : Nat) : List Nat := if id ∈ c then id :: c.filter (· ≠ id) else c
+def lruPop (c : List Nat) (id : Nat) : List Nat := c.filter (· ≠ id)
+
+/-- `preopen`: `release_all`, `open_read_only(id)` for `tail_id..head_id`, then `put(head_id, clone)` -/
+def cachePreopen (cap tailId headId : Nat) : List Nat :=
+  lruPut cap (((List.range headId).filter (· ≥ tailId)).foldl (lruPut cap) []) headId
+
+/-- `FreezerFiles::open` (= `build` + `preopen`) -/
+def openL (cap : Nat) (d : Disk) : Option (Handle × Disk) :=
+  match «open» d with
+  | none => none
+  | some (h, d') =>
+    let tailId := match d'.idx with | t :: _ => t.fid | [] => 0
+    some ({ h with cache := cachePreopen cap tailId h.headId }, d')
+
+/-- `append`: on a rollover `open_truncated(next)` puts `next`, `release(head)` pops the old head,
+    `open_read_only(head)` puts it again -/
+def appendL (cap max : Nat) (h : Handle) (d : Disk) (data : Bytes) : Handle × Disk :=
+  let r := append max h d data
+  let roll := h.headBytes + data.length > max
+  ({ r.1 with cache :=
+      if roll then lruPut cap (lruPop (lruPut cap h.cache (h.headId + 1)) h.headId) h.headId
+      else h.cache }, r.2)
+
+/-- the cache after `retrieve(item)`: untouched on the early returns, else `get` (promote) or, on a
+    miss, `open_read_only` (put) -/
+def retrieveCache (cap : Nat) (h : Handle) (d : Disk) (item : Nat) : List Nat :=
+  if item < 1 then h.cache
+  else if h.number ≤ item then h.cache
+  else match getBounds d item with
+    | none => h.cache
+    | some (_, _, fid) => if fid ∈ h.cache then lruGet h.cache fid else lruPut cap h.cache fid
+
+/-- `truncate`: across files `release(new)` pops, `open_append(new)` puts the new head (which may
+    EVICT the least recently used handle of a full cache), then `delete_after(new)` pops and unlinks
+    every id above it that is cached AT THAT MOMENT — an id evicted a moment earlier stays on disk.
+    The plain `truncate` is run on the handle with that cache. -/
+def truncateL (cap : Nat) (h : Handle) (d : Disk) (item : Nat) : Handle × Disk :=
+  if item < 1 ∨ item + 1 ≥ h.number then truncate h d item
+  else match (d.idx.take (item + 1))[item]? with
+    | none => truncate h d item
+    | some e =>
+      if e.fid ≠ h.headId then
+        let atDelete := lruPut cap (lruPop h.cache e.fid) e.fid
+        let r := truncate { h with cache := atDelete } d item
+        ({ r.1 with cache := atDelete.filter (· ≤ e.fid) }, r.2)
+      else truncate h d item
+
+/-! ### `open` as a decision table (round 6)
+
+`FreezerFilesBuilder::build` on ANY directory content — INDEX entries that no history wrote, data
+files of any lengths, older files short or missing — decides by one test per index entry, walking
+from the newest entry to the oldest: *does the data file the entry names hold at least `offset`
+bytes?*  The first entry that passes becomes the head (its file is cut to that offset, everything
+after it in the INDEX is dropped); if none passes the loop reads before the start of the INDEX
+(`index_size - INDEX_ENTRY_SIZE` underflows: an `Err`/panic).  `Props/C09.lean`
+`open_decision_table` proves `open = openTable` for every disk. -/
+
+/-- entry `e` fits: the data file it names holds at least `e.off` bytes -/
+def fits (files : Nat → Bytes) (e : Entry) : Bool := decide (e.off ≤ (files e.fid).length)
+
+/-- the part of the reversed index (newest entry first) that starts at the newest fitting entry -/
+def lastFit (files : Nat → Bytes) : List Entry → Option (List Entry)
+  | [] => none
+  | e :: rest => if fits files e then some (e :: rest) else lastFit files rest
+
+/-- what the repair loop returns, as a table -/
+def repairTable (files : Nat → Bytes) (rev : List Entry) :
+    Option (List Entry × (Nat → Bytes) × Nat × Nat) :=
+  match lastFit files rev with
+  | some (e :: rest) =>
+    some (e :: rest, setFile files e.fid ((files e.fid).take e.off), e.fid, e.off)
+  | _ => none
+
+/-- `open` as a total decision table over arbitrary disks -/
+def openTable (d : Disk) : Option (Handle × Disk) :=
+  if d.idx.isEmpty ∧ d.tail ≠ 0 then none      -- INDEX of 1..11 bytes
+  else
+    let idx := if d.idx.isEmpty then [⟨0, 0⟩] else d.idx   -- empty INDEX: default entry
+    match lastFit d.files idx.reverse with
+    | some (e :: rest) =>
+      let tailId := match (e :: rest).reverse with | t :: _ => t.fid | [] => 0
+      some ({ number := rest.length + 1, headId := e.fid, headBytes := e.off,
+              cache := (List.range (e.fid + 1)).filter (· ≥ tailId) },
+            { idx := (e :: rest).reverse, tail := 0,
+              files := setFile d.files e.fid ((d.files e.fid).take e.off) })
+    | _ => none
+
 end CkbVerif.Freezer
